@@ -292,7 +292,12 @@ func knownNonNilError(e *Engine, st *State, x ast.Expr) bool {
 			}
 		}
 	}
-	return e.NonNil(st, x)
+	if e.NonNil(st, x) {
+		return true
+	}
+	// a sentinel: a package-level error variable that is never assigned and initialised with a fresh error
+	f := e.valueOf(st, x)
+	return f != nil && f.Nil == 2
 }
 
 func ruleC13Arity(p *Program, r *Run) {
@@ -1044,18 +1049,33 @@ func (c *joinKindClient) PostCall(e *Engine, st *State, call *ast.CallExpr, call
 	return nil
 }
 
+// missedLookup: the state knows that a look-up of the join kind in the table found nothing - the comma-ok result of
+// a map index, slices.Contains(table, k) false, or slices.Index(table, k) negative.
+func (c *joinKindClient) missedLookup(st *State) bool {
+	for _, k := range st.Keys() {
+		f := st.Get(k)
+		if f == nil {
+			continue
+		}
+		switch {
+		case strings.HasPrefix(k, "has("+c.table+","), strings.HasPrefix(k, "call:slices.Contains("+c.table+","):
+			if f.HasEq && f.Eq == "false" {
+				return true
+			}
+		case strings.HasPrefix(k, "call:slices.Index("+c.table+","):
+			if f.Hi != nil && *f.Hi < 0 || f.HasEq && f.Eq == "-1" {
+				return true
+			}
+		}
+	}
+	return false
+}
+
 func (c *joinKindClient) Return(e *Engine, st *State, ret *ast.ReturnStmt) {
 	if !e.Reporting() || e.Lit != nil || ret == nil || len(ret.Results) != 2 {
 		return
 	}
-	missed := false
-	for _, k := range st.Keys() {
-		if strings.HasPrefix(k, "has("+c.table+",") {
-			if f := st.Get(k); f != nil && f.HasEq && f.Eq == "false" {
-				missed = true
-			}
-		}
-	}
+	missed := c.missedLookup(st)
 	// the ok variable of the lookup may be out of scope by now: remembered by Stmt
 	if st.Ext("jk:missed") == "1" {
 		missed = true
@@ -1074,12 +1094,8 @@ func (c *joinKindClient) Stmt(e *Engine, st *State, _ ast.Stmt) *State {
 	if st.Ext("jk:missed") == "1" {
 		return nil
 	}
-	for _, k := range st.Keys() {
-		if strings.HasPrefix(k, "has("+c.table+",") {
-			if f := st.Get(k); f != nil && f.HasEq && f.Eq == "false" {
-				return st.WithExt("jk:missed", "1")
-			}
-		}
+	if c.missedLookup(st) {
+		return st.WithExt("jk:missed", "1")
 	}
 	return nil
 }
